@@ -35,7 +35,48 @@ theorem error_flows_redacted :
 
 /-- … and the raw flows are exactly one: the transport error of a PAN-OS request
 (`panos.httpGet: s.client.Get(uri)`) reaching `device.ApproveOrCompare: errlog.Abort("%v", err)`. -/
-theorem raw_flows_exact : NA.C17.rawFlows = [(31414, 2102085953)] := by decide
+theorem raw_flows_exact : NA.C17.rawFlows = [(31414, 89461454)] := by decide
+
+/-! ## NSX and SSH runs derived from the regenerated steps
+
+Nothing below is written by hand about where a secret goes: the steps (sink writes and transmissions,
+in source order, with the labelled values they depend on) come from `translate/sinks`; what a sink
+receives is an arbitrary function `F` of those values. -/
+
+/-- **NSX**: for everything the code of package `nsx` may compute at its sinks, two runs that differ
+in password, session token and cookie (labels 1, 3, 4 — and 2) write the same to every sink. -/
+theorem nsx_steps_independent (F : Nat → NA.Mask.LEnv → NA.Mask.Str) (env1 env2 : NA.Mask.LEnv)
+    (h0 : env1 0 = env2 0) :
+    NA.Mask.runSteps F env1 (stepsOf 1) = NA.Mask.runSteps F env2 (stepsOf 1) :=
+  NA.Mask.runSteps_independent F env1 env2 h0 _ (by decide)
+
+/-- **SSH back ends and `console.Conn`**: likewise (the password is transmitted, never written);
+label 0 includes the device output — that it does not depend on the password is the hypothesis
+`noEchoAtPasswordPrompt` of `ssh_echo_device_independent`. -/
+theorem ssh_steps_independent (F : Nat → NA.Mask.LEnv → NA.Mask.Str) (env1 env2 : NA.Mask.LEnv)
+    (h0 : env1 0 = env2 0) :
+    NA.Mask.runSteps F env1 (stepsOf 2) = NA.Mask.runSteps F env2 (stepsOf 2) :=
+  NA.Mask.runSteps_independent F env1 env2 h0 _ (by decide)
+
+/-- **PAN-OS package**: every sink step sees its secrets only through a redaction step. -/
+theorem panos_steps_independent (F : Nat → NA.Mask.LEnv → NA.Mask.Str) (env1 env2 : NA.Mask.LEnv)
+    (h0 : env1 0 = env2 0) :
+    NA.Mask.runSteps F env1 (stepsOf 3) = NA.Mask.runSteps F env2 (stepsOf 3) :=
+  NA.Mask.runSteps_independent F env1 env2 h0 _ (by decide)
+
+/-- The rest of the module (device, httpdevice, doapprove, drc, errlog, program, status …): the only
+sink step that depends on a secret is the F-C17 site. -/
+theorem common_steps_secret_only_at_fc17 : NA.Mask.secretSinks (stepsOf 4) = NA.C17.fc17Sites := by decide
+
+/-- The NSX login closure, step by step as regenerated: log, log, transmit (the form with the
+password), log — the form is logged BEFORE the password is put into it. -/
+theorem nsx_login_shape : shapeOf 1768297969 = [(0, []), (0, []), (1, [1]), (0, [])] := by decide
+
+/-- `nsx.sendRequest`: the token is transmitted as a header (then the content type, then the request); no sink step. -/
+theorem nsx_request_shape : shapeOf 766251816 = [(1, [3]), (1, []), (1, [])] := by decide
+
+/-- `console.Conn.Send` transmits (possibly the password) and writes to no sink. -/
+theorem ssh_send_shape : shapeOf 3924003082 = [(1, [1])] := by decide
 
 /-- The lemma behind every class of the table (checked names). -/
 def coverLemma : Cover → Lean.Name
@@ -58,6 +99,8 @@ def failureLemma : FailureKind → Lean.Name
   | .nsxRequest => ``nsx_sinks_independent
 
 def obligations : List Lean.Name := [``all_sink_sites_covered, ``fc17_sites_exact, ``every_sink_kind_listed,
-  ``all_error_sources_classified, ``error_flows_redacted, ``raw_flows_exact]
+  ``all_error_sources_classified, ``error_flows_redacted, ``raw_flows_exact,
+  ``nsx_steps_independent, ``ssh_steps_independent, ``panos_steps_independent, ``common_steps_secret_only_at_fc17,
+  ``nsx_login_shape, ``nsx_request_shape, ``ssh_send_shape]
 
 end NA.C17Sites
